@@ -55,7 +55,10 @@ class DictInterp:
         self.method = method
 
     def run(self, fi: FuncInfo) -> DV:
+        from .normalize import flat
+
         env: dict[str, object] = {}
+        fi = flat(self.prog, fi, self.concrete)  # private helpers inlined, accumulation loops as comprehensions
         result = self._block(fi, fi.body(), env, False)
         if result is None:
             raise AnalysisError(f"{fi.qualname}: no return value on the straight path")
@@ -80,6 +83,13 @@ class DictInterp:
                     continue
                 self._expr(fi, st.value, env, stmt=True, cond=cond)
             elif isinstance(st, ast.If):
+                dec = self._decide_membership(fi, st.test, env)
+                if dec is not None:
+                    # `if "kwargs" not in d:` on a dictionary whose keys are known: only that arm runs
+                    r = self._block(fi, st.body if dec else st.orelse, env, cond)
+                    if r is not None:
+                        raise AnalysisError(f"{fi.qualname}: conditional return in {self.method}")
+                    continue
                 r1 = self._block(fi, st.body, env, True)
                 r2 = self._block(fi, st.orelse, env, True)
                 if r1 is not None or r2 is not None:
@@ -100,6 +110,19 @@ class DictInterp:
                 touched = {n.id for n in ast.walk(st) if isinstance(n, ast.Name)} & {k for k, v in env.items() if isinstance(v, DV)}
                 if touched:
                     raise AnalysisError(f"{fi.qualname}: statement `{norm(st)[:60]}` manipulates a tracked dictionary in an unsupported way")
+        return None
+
+    def _decide_membership(self, fi, test, env):
+        neg = False
+        while isinstance(test, ast.UnaryOp) and isinstance(test.op, ast.Not):
+            neg, test = not neg, test.operand
+        if isinstance(test, ast.Compare) and len(test.ops) == 1 and isinstance(test.ops[0], (ast.In, ast.NotIn)):
+            k = self._key(test.left)
+            cont = self._expr(fi, test.comparators[0], env) if isinstance(test.comparators[0], (ast.Name, ast.Subscript)) else None
+            if k is not None and isinstance(cont, DV) and not cont.opaque_spreads and k not in cont.conditional:
+                present = k in cont.items
+                r = present if isinstance(test.ops[0], ast.In) else not present
+                return (not r) if neg else r
         return None
 
     @staticmethod
@@ -422,31 +445,40 @@ class LookupSite:
     call: ast.Call
 
 
+def _slot_of_expr(v: ast.expr) -> str | None:
+    """the dictionary slot an expression reads: d["slot"], d.get("slot"[, default]), also through .items()/.values()"""
+    if isinstance(v, ast.Subscript) and isinstance(v.slice, ast.Constant) and isinstance(v.slice.value, str):
+        return v.slice.value
+    if isinstance(v, ast.Call) and isinstance(v.func, ast.Attribute):
+        if v.func.attr in ("get", "pop") and v.args and isinstance(v.args[0], ast.Constant) and isinstance(v.args[0].value, str):
+            return v.args[0].value
+        if v.func.attr in ("items", "values") and not v.args:
+            return _slot_of_expr(v.func.value)
+    return None
+
+
 def lookup_sites(prog: Program, fi: FuncInfo) -> list[LookupSite]:
+    from .normalize import flat
+
+    fi = flat(prog, fi, fi.cls)  # private helpers inlined, loops over literal (key, protocol) tables unrolled
     out = []
     # map local data variables to the slot they were read from: x = kwargs["operation"] ; for x in kwargs["moves"]
     slot_of: dict[str, str] = {}
-    for n in walk_no_nested(fi.node):
+    for n in ast.walk(fi.node):
         if isinstance(n, ast.Assign) and len(n.targets) == 1 and isinstance(n.targets[0], ast.Name):
-            v = n.value
-            if isinstance(v, ast.Subscript) and isinstance(v.slice, ast.Constant) and isinstance(v.slice.value, str):
-                slot_of[n.targets[0].id] = v.slice.value
-        elif isinstance(n, ast.For) and isinstance(n.target, ast.Name):
-            v = n.iter
-            if isinstance(v, ast.Subscript) and isinstance(v.slice, ast.Constant) and isinstance(v.slice.value, str):
-                slot_of[n.target.id] = v.slice.value
-            elif isinstance(v, ast.Call) and isinstance(v.func, ast.Attribute) and v.func.attr in ("items", "values"):
-                inner = v.func.value
-                if isinstance(inner, ast.Call) and isinstance(inner.func, ast.Attribute) and inner.func.attr == "get" and inner.args and isinstance(inner.args[0], ast.Constant):
-                    slot_of[n.target.id] = inner.args[0].value
-        elif isinstance(n, ast.For) and isinstance(n.target, ast.Tuple):
-            v = n.iter
-            if isinstance(v, ast.Call) and isinstance(v.func, ast.Attribute) and v.func.attr == "items":
-                inner = v.func.value
-                if isinstance(inner, ast.Call) and isinstance(inner.func, ast.Attribute) and inner.func.attr == "get" and inner.args and isinstance(inner.args[0], ast.Constant):
-                    for el in n.target.elts:
-                        if isinstance(el, ast.Name):
-                            slot_of[el.id] = inner.args[0].value
+            sl = _slot_of_expr(n.value)
+            if sl is not None:
+                slot_of[n.targets[0].id] = sl
+        elif isinstance(n, (ast.For, ast.comprehension)):
+            sl = _slot_of_expr(n.iter)
+            if sl is None:
+                continue
+            if isinstance(n.target, ast.Name):
+                slot_of[n.target.id] = sl
+            elif isinstance(n.target, ast.Tuple):
+                for el in n.target.elts:
+                    if isinstance(el, ast.Name):
+                        slot_of[el.id] = sl
     for c in calls_in(fi.node):
         d = dotted(c.func) or ""
         if not prog.resolve_dotted(fi.module, d).endswith("registry.get_typed_class"):
@@ -457,6 +489,8 @@ def lookup_sites(prog: Program, fi: FuncInfo) -> list[LookupSite]:
         slot = None
         if isinstance(name_e, ast.Subscript) and isinstance(name_e.value, ast.Name):
             slot = slot_of.get(name_e.value.id)
+        elif isinstance(name_e, ast.Subscript):
+            slot = _slot_of_expr(name_e.value)
         out.append(LookupSite(fi, norm(name_e), slot, base_e, prog.resolve_class(fi.module, base_e), c))
     return out
 
